@@ -51,7 +51,13 @@ TRUSTED = ["library operators: OpContract is PROVED for every operator model of 
            "fitness of what they produce (memetic / local-search) are all exercised",
            "toolbox.clone = copy.deepcopy produces an object with equal genome and fitness (checked by the oracle on "
            "every untouched offspring; C16 covers creator classes)",
-           "IEEE-754 `<` and `+` of Lean `Float` equal CPython's (the recorded random() doubles are compared again)"]
+           "IEEE-754 `<` and `+` of Lean `Float` equal CPython's (the recorded random() doubles are compared again)",
+           "translator tie: the rendering rules in the docstring of harness/py2lean_c02.py (toolbox-loop sub-language: toolbox.clone/mate/mutate as the "
+           "model's parameters, random.random/sample(.,2)/choice as reads of the draw tape, del .fitness.values, the three for-loop shapes in "
+           "state-passing style) and its prelude lean/DeapModel/Core/GenPreludeC02.lean; the parameter types assumed in harness/props/c02_translate.py "
+           "(population = list of individuals, cxpb/mutpb = float, lambda_ = non-negative count).  deap/algorithms.py varAnd and varOr are regenerated "
+           "from $DEAP_REPO's current source on every run and kernel-checked equal to Core/Variation.lean composed with decodeAnd / decodeOr "
+           "(lean/DeapModel/GenEq/C02.lean.tmpl: Gen.varAnd_eq_canon/_eq_model, Gen.varOr_eq_canon/_eq_model; lemmas Lemmas/C02Gen.lean)"]
 ASSUMPTIONS = ["population of size >= 2 whenever varOr can take the crossover branch (cxpb > 0) and size >= 1 whenever "
                "lambda > 0: random.sample / random.choice raise otherwise, before any offspring exists",
                "nodes of a gp.PrimitiveTree (Primitive / Terminal objects of the primitive set) are immutable symbols: "
@@ -66,6 +72,27 @@ EXPLANATION = ("tools.History (Core/History.lean) is part of the model: a Histor
                "replaying recorded runs (oids, call trace, genomes, fitness validity, parents), once with scripted operators "
                "(every representation and wrapper) and once end to end through the composed model (list / permutation / "
                "float / ES individuals with the C09 and C10 operators, plain or decorated with gp.staticLimit).")
+
+def translate(repo):
+    """translator tie (lib._translated_obligations): Lean definitions of varAnd / varOr regenerated from `repo`'s current
+    deap/algorithms.py (harness/py2lean_c02.py) + the committed theorems `Gen.<f>` = model of lean/DeapModel/GenEq/C02.lean.tmpl"""
+    import json
+    import os
+    import lib
+    from props import c02_translate
+    tr = c02_translate.translate(repo)
+    try:
+        os.makedirs(os.path.join(lib.OUT, "evidence"), exist_ok=True)
+        with open(os.path.join(lib.OUT, "evidence", "C02.translated.json"), "w") as fh:
+            json.dump({"definitions": len(tr["definitions"]), "theorems": len(tr["theorems"]), "refused": len(tr["refused"]),
+                       "problems": tr["problems"],
+                       "functions": [dict(file=f, name=n, status=st, detail=d) for f, n, st, d in tr["table"]],
+                       "theorem_names": tr["theorems"]}, fh, indent=1)
+            fh.write("\n")
+    except OSError:
+        pass
+    return tr
+
 
 REPS = ["list", "array", "numpy", "tree", "es", "perm"]
 OPS = {
